@@ -21,11 +21,25 @@ def h_cancel(k0: int, k1: int, k2: int, k3: int, k4: int, k5: int, k6: int, k7: 
     op, kind = op_of(P("op"))
     name = op.name
     d = mkdata([k0, k1, k2, k3, k4, k5, k6, k7], [n0, n1, n2, 0], [p0, p1, p2], [b0, b1, b2])
-    o = Opts(fl=[P("fl", "agen")] * 4, ffl=P("ffl", "adef"))
+    o = Opts(fl=(P("fls") or [P("fl", "agen")] * 4), ffl=P("ffl", "adef"))
     Wa = World("a", susp=1)
-    cancel = Cancel("cancelled")
+    Wa.close_susp = P("close_susp", 0)
+    Wa.aclose_ret = P("aclose_ret")
+    if P("cancel_kind") == "asyncio":
+        import asyncio
+
+        cancel = asyncio.CancelledError("cancelled")  # what a real asyncio task gets
+    else:
+        cancel = Cancel("cancelled")
     D = Driver(Wa, cancel_at=x, cancel_exc=cancel)
     ok = True
+    from .c17 import no_loop
+
+    with no_loop(Wa):
+        return _h_cancel_body(op, kind, name, d, o, Wa, D, cancel, ok)
+
+
+def _h_cancel_body(op, kind, name, d, o, Wa, D, cancel, ok):
     st = start_async(op, kind, Wa, d, o)
     if st[0] == "exc":
         return finish(True, False, (name, "construction-raised"))
@@ -54,14 +68,19 @@ def h_cancel(k0: int, k1: int, k2: int, k3: int, k4: int, k5: int, k6: int, k7: 
             ok = fail("%s:aclose-after-cancel-raised-%s" % (name, type(rc[1]).__name__)) and ok
         un = _unreleased(Wa, lazy_outer)
         if un:
-            ok = fail("%s:source-not-released-after-cancel" % name, un) and ok
+            if any(st_.close_interrupted for st_ in Wa.srcs):
+                # the cancellation arrived while the tool was closing one source: the
+                # remaining sources of a multi-source tool are then never closed
+                ok = fail("multi-source-tool:later-sources-left-open-when-cancelled-inside-a-source-close", (name, un)) and ok
+            else:
+                ok = fail("%s:source-not-released-after-cancel" % name, un) and ok
     for v in Wa.viol:
         ok = fail("%s:%s" % (name, v)) and ok
     return finish(ok, D.cancelled, (name, tuple(len(s) for s in d.srcs), len(got), D.nsusp if D.cancelled else -1))
 
 
 # ---- tee with lock ---------------------------------------------------------------
-def h_cancel_tee(n: int, j: int, x: int, which: int):
+def h_cancel_tee(n: int, j: int, x: int, which: int, probe_other: bool):
     """
     pre: 0 <= n <= P("N", 2) and 0 <= j <= 2 and 1 <= x <= 8 and 0 <= which <= 1
     post: _[0]
@@ -90,7 +109,11 @@ def h_cancel_tee(n: int, j: int, x: int, which: int):
         # finalises that generator: the source's own behaviour, not tee's)
         st0 = Wa.srcs[0]
         src_killed = st0.flavour == "agen" and st0.obj.ag_frame is None and not st0.ended
-        rest, e2 = D0.take(b, len(items) + 1)
+        if probe_other:
+            rest, e2 = D0.take(b, len(items) + 1)
+        else:
+            # the owner closes the tee right away (the other child may never have been advanced)
+            rest, e2 = list(items[len(got0):]), "stop"
         allb = got0 + rest
         if not src_killed and (len(allb) != len(items) or any(u is not v for u, v in zip(allb, items)) or e2 != "stop"):
             ok = fail("tee:other-child-disturbed-by-cancel", (allb, e2)) and ok
@@ -402,7 +425,7 @@ def _grid_cancel():
 GRID = {
     "h_cancel": _grid_cancel,
     "h_cancel_groupby": lambda: [(n, 1, 1, 2, s, g, x) for n in range(4) for s in (1, 2, 3) for g in (0, 1) for x in range(1, 9)],
-    "h_cancel_tee": lambda: [(n, j, x, w) for n in range(3) for j in range(3) for x in range(1, 9) for w in (0, 1)],
+    "h_cancel_tee": lambda: [(n, j, x, w, pr) for n in range(3) for j in range(3) for x in range(1, 9) for w in (0, 1) for pr in (False, True)],
     "h_cancel_lru": lambda: [(x, ms, pre) for x in (1, 2, 3) for ms in range(3) for pre in range(3)],
     "h_cancel_cprop": lambda: [(x, w) for x in range(1, 6) for w in (False, True)],
     "h_cancel_stack": lambda: [(x, k) for x in range(1, 7) for k in range(4)],
@@ -438,6 +461,12 @@ def jobs(tier):
             add("h_cancel", op=op, S=3, N=1, X=(1, 7), fl=fl, ffl=ffl)
         for op in AGGS1:
             add("h_cancel", op=op, S=1, N=N1, X=(1, 2 * N1 + 2), fl=fl, ffl=ffl)
+        for op in ("filter", "enumerate", "islice", "accumulate_f", "zip", "chain", "merge", "list", "sum" if False else "max", "sorted", "reduce", "nlargest"):
+            kw = {"form": 2, "PR": 2, "b0": False, "b1": False} if op == "islice" else {}
+            S_ = 2 if op in ("zip", "chain", "merge") else 1
+            add("h_cancel", op=op, S=S_, N=1, X=(1, 6), fl=fl, ffl=ffl, cancel_kind="asyncio", close_susp=1, **kw)
+            if fl == "acls":
+                add("h_cancel", op=op, S=S_, N=1, X=(1, 5), fl=fl, ffl=ffl, aclose_ret=True, **kw)
         add("h_cancel_tee", N=2, fl=fl)
         add("h_cancel_groupby", fl=fl, ffl=ffl)
         add("h_cancel_scoped", fl=fl)
@@ -448,7 +477,7 @@ def jobs(tier):
 
 
 BOUNDS = {
-    "quick": "every source pull, async callable, lock acquire/release and context manager suspends once; Cancel(BaseException) thrown at symbolic suspension k=1..K (K covers every suspension of the execution); N<=2 items per source, S<=3; sources async generators / class-based with aclose; groupby with async key (1..3 advances, 0..2 group items); tee with lock (other child ahead by 0..2), lru_cache (maxsize None/1/2, 0..2 earlier entries), cached_property with and without lock, ExitStack with 2 context managers + callback + pushed exit, scoped_iter (plain and nested)",
+    "quick": "(also with asyncio.CancelledError as the thrown exception while asyncio loop accessors raise and source closes suspend; and with sources whose aclose() returns a truthy value) every source pull, async callable, lock acquire/release and context manager suspends once; Cancel(BaseException) thrown at symbolic suspension k=1..K (K covers every suspension of the execution); N<=2 items per source, S<=3; sources async generators / class-based with aclose; groupby with async key (1..3 advances, 0..2 group items); tee with lock (other child ahead by 0..2), lru_cache (maxsize None/1/2, 0..2 earlier entries), cached_property with and without lock, ExitStack with 2 context managers + callback + pushed exit, scoped_iter (plain and nested)",
     "thorough": "N<=3",
 }
 OUTSIDE = ["more than one cancellation", "cancellation while the owner's own aclose() is running", "lengths above the bound"]
